@@ -226,3 +226,12 @@ func init() {
 		runDstRule(c, "X.dst", []string{"/encoding", "/compress"}, nil)
 	}})
 }
+
+func init() {
+	register(&Property{ID: "X-generic", NeedSSA: true, Decided: "dump", NotDecided: "-", Run: func(c *Ctx) {
+		literalSiblingRule(c, "X.lit", 1)
+		polarityRule(c, "X.pol", "Equal", "Same")
+		typePairRule(c, "X.typepair")
+		enumRule(c, "X.kinds", "Kind", []string{"(Kind).Value", "canEncode", "(Value).hash"})
+	}})
+}
